@@ -236,6 +236,15 @@ def consensus(
         super_reads[1].append(
             Variant(pos, allele=id_to_allele[pos][1 - best_allele], quality=score)
         )
+    # Variants that are already phased in the input keep their phase even if no tagged read
+    # covers them (otherwise they would be written as unphased)
+    for pos, phase in phased.items():
+        if phase is None or pos in votes or phase.block_id is None or len(phase.phase) != 2:
+            continue
+        components[pos] = phase.block_id - 1
+        quality = phase.quality if phase.quality is not None else 0
+        super_reads[0].append(Variant(pos, allele=phase.phase[0], quality=quality))
+        super_reads[1].append(Variant(pos, allele=phase.phase[1], quality=quality))
     for read in super_reads:
         read.sort(key=lambda x: x.position)
     return super_reads, components
